@@ -45,6 +45,8 @@ pub enum ObsOp {
     IntoShared,
     /// `handle.clone_from(&handle_of_another_observable)`: the handle leaves this observable
     CloneFromOther(u8),
+    /// `weak.clone_from(&weak_of_another_observable)`, then upgrade it (the handle belongs to the other observable)
+    WeakCloneFromOther(u8),
     Subscribe(u8),
     SubscribeReset(u8),
     SubClone(u8),
@@ -613,6 +615,22 @@ impl<F: Flavor> W<F> {
                 }
                 Ok(())
             }
+            ObsOp::WeakCloneFromOther(wk) => {
+                let Some(wi) = pick(wk, &self.live_weaks()) else { return Ok(()) };
+                if self.other.is_empty() {
+                    self.other.push(F::new_shared(OVal::new(9, 9)));
+                }
+                let src = F::s_downgrade(&self.other[0]);
+                let mut w = self.weaks[wi].take().unwrap();
+                F::w_clone_from(&mut w, &src);
+                // the weak reference now points at the other observable: it has left this one
+                if let Some(h) = F::w_upgrade(&w) {
+                    if self.other.len() < 4 {
+                        self.other.push(h);
+                    }
+                }
+                Ok(())
+            }
             ObsOp::Subscribe(owner) | ObsOp::SubscribeReset(owner) => {
                 let Some(o) = pick(owner, &self.live_owners()) else { return Ok(()) };
                 if self.live_subs().len() >= 5 {
@@ -1044,6 +1062,7 @@ pub fn op(g: &ObsGen) -> BoxedStrategy<ObsOp> {
                 1 => ix().prop_map(ObsOp::DropWeak),
                 2 => Just(ObsOp::IntoShared),
                 1 => ix().prop_map(ObsOp::CloneFromOther),
+                1 => ix().prop_map(ObsOp::WeakCloneFromOther),
             ]
             .boxed(),
         ));
